@@ -6,6 +6,7 @@ package main
 // Per case it measures TotalAlloc, CPU time, and classifies the outcome.
 
 import (
+	"sync/atomic"
 	"bufio"
 	"encoding/base64"
 	"encoding/json"
@@ -190,6 +191,9 @@ func workerMain(dir string) {
 	os.Exit(0)
 }
 
+// runTimeouts counts watchdog firings over the whole run (see runBatch).
+var runTimeouts int64
+
 // runBatch executes cases in a child (restarting after each death) and returns
 // one result per case.
 func runBatch(cases []WCase, wallPerBatch time.Duration) ([]WResult, error) {
@@ -216,6 +220,7 @@ func runBatch(cases []WCase, wallPerBatch time.Duration) ([]WResult, error) {
 		self = b // e.g. the -race build, for cases that exercise concurrency
 	}
 	start := 0
+	batchTimeouts := 0
 	for start < len(cases) {
 		cmd := exec.Command(self, "-worker", dir)
 		cmd.Env = append(os.Environ(), "VCHECK_WORKER_START="+strconv.Itoa(start), "VCHECK_CHILD=1")
@@ -290,6 +295,22 @@ func runBatch(cases []WCase, wallPerBatch time.Duration) ([]WResult, error) {
 		done[lastB] = true
 		start = lastB + 1
 		os.Remove(filepath.Join(dir, "progress"))
+		if r.Outcome == "timeout" {
+			// Calls that never return are paid for with a full watchdog period each. A few are
+			// evidence; hundreds (every call of a process blocking once some state is poisoned)
+			// would only make the run endless: after the third in one batch, or once twelve were
+			// seen in the whole run, the rest of this batch is not run (and not judged).
+			batchTimeouts++
+			if batchTimeouts >= 3 || atomic.AddInt64(&runTimeouts, 1) >= 12 {
+				for k := start; k < len(cases); k++ {
+					if !done[k] {
+						results[k] = WResult{Outcome: "skipped-after-timeouts"}
+						done[k] = true
+					}
+				}
+				break
+			}
+		}
 	}
 	for i := range done {
 		if !done[i] {
@@ -359,6 +380,21 @@ func runBatches(r *mon.Run, cases []WCase, per, w int) []WResult {
 			res, err := runBatch(cases[i:i+1], 5*time.Minute)
 			os.Unsetenv("VCHECK_CASE_WATCHDOG_S")
 			if err == nil && len(res) == 1 {
+				if out[i].Outcome == "timeout" && res[0].Outcome != "timeout" {
+					// Alone it returns. Either the machine was busy, or something an earlier input left
+					// in the process (a lock never released, a poisoned table) blocks it: run the part of
+					// its batch up to and including it again, with nothing else running.
+					lo := (i / per) * per
+					os.Setenv("VCHECK_CASE_WATCHDOG_S", "30")
+					pre, perr := runBatch(cases[lo:i+1], 10*time.Minute)
+					os.Unsetenv("VCHECK_CASE_WATCHDOG_S")
+					r.Count("batch_prefixes_rerun", 1)
+					if perr == nil && len(pre) == i+1-lo && pre[i-lo].Outcome == "timeout" {
+						pre[i-lo].Panic = "does not return after the earlier inputs of its batch were processed in the same process (alone it returns): " + pre[i-lo].Panic
+						out[i] = pre[i-lo]
+						continue
+					}
+				}
 				out[i] = res[0]
 			}
 		}
